@@ -156,16 +156,31 @@ var features = []feature{
 		roots: []string{"gs$"}, plain: []string{"gs$"}},
 }
 
-// defect witnesses (pinned, one per case at most)
+// Witnesses of findings.  The first four were repaired in /repo (4582d68: nil arguments object of a function
+// stash; 1f3ee72: eval intrinsic looked up through the global property): they are ordinary features now, mixed
+// freely into histories (init below), and still run first on every run as regression cases that expect an
+// equivalent, independent copy.  The last one (f.caller) is the pinned witness of the open finding class 3.
 var (
 	defArgParam = feature{name: "argparam", code: 101,
-		setup: []string{`function pa$(arguments){ return function(){ return 1 } }; var pa$f = pa$(1);`},
-		q:     []string{`pa$f()`}}
-	defEvalGone1 = feature{name: "evalgone", code: 102, setup: []string{`var e$ = eval; eval = 1;`}, q: []string{`typeof eval`}}
-	defEvalGone2 = feature{name: "evalgone", code: 102, setup: []string{`var e$ = eval; delete eval;`}, q: []string{`typeof eval`}}
-	defEvalSwap  = feature{name: "evalswap", code: 103, setup: []string{`var e$ = eval; eval = parseInt; var evx$ = 'global';`}, q: []string{`typeof eval`}}
-	defCaller    = feature{name: "caller", code: 104, setup: []string{`function cf$(){ return cf$.caller === cg$ }; function cg$(){ return cf$() }`}, q: []string{`typeof cf$`}}
+		setup: []string{`function pa$(arguments){ var held = {v: arguments}; return {f: function(){ return 1 }, get: function(){ return arguments + ':' + held.v }, set: function(v){ arguments = v; held.v = v }} }; var pa$o = pa$(1), pa$f = pa$o.f;`},
+		muts:  []string{`pa$o.set('changed')`, `pa$f.tag = 1`, `pa$o.set(pa$o)`, `pa$o = pa$(2)`},
+		q:     []string{`pa$f() + ',' + pa$f.tag`, `typeof pa$o.get()`, `pa$(5).get()`},
+		roots: []string{"pa$o"}, plain: []string{"pa$o"}}
+	defEvalGone1 = feature{name: "evalgone", code: 102, setup: []string{`var e$ = eval; eval = 1;`},
+		muts: []string{`eval = e$`, `eval = 2`, `eval = e$; eval('var viaeval$ = 1')`, `delete eval`},
+		q:    []string{`typeof eval`, `typeof e$ + e$('1+1')`, `(function(){ var l = 'loc'; try { return eval === e$ ? eval('l') : 'n/a' } catch (e) { return 'E:' + e.name } })()`, `typeof viaeval$`}}
+	defEvalGone2 = feature{name: "evalgone", code: 102, setup: []string{`var e$ = eval; delete eval;`},
+		muts: []string{`eval = e$`, `this.eval = e$`, `eval = null`, `var eval = e$; eval('var viaeval$ = 1')`},
+		q:    []string{`typeof eval`, `typeof e$ + e$('1+1')`, `(function(){ var l = 'loc'; try { return eval === e$ ? eval('l') : 'n/a' } catch (e) { return 'E:' + e.name } })()`, `typeof viaeval$`}}
+	defEvalSwap = feature{name: "evalswap", code: 103, setup: []string{`var e$ = eval; eval = parseInt; var evx$ = 'global';`},
+		muts: []string{`eval = e$`, `eval = parseInt`, `evx$ = 'global2'`, `eval = Math.abs`},
+		q:    []string{`typeof eval + eval('12px')`, `(function(){ var saved = eval; try { eval = e$; return (function(){ var evx$ = 'local'; return eval('evx$') })() } catch (e) { return 'E:' + e.name } finally { eval = saved } })()`, `e$('evx$')`}}
+	defCaller = feature{name: "caller", code: 104, setup: []string{`function cf$(){ return cf$.caller === cg$ }; function cg$(){ return cf$() }`}, q: []string{`typeof cf$`}}
 )
+
+func init() {
+	features = append(features, defArgParam, defEvalGone1, defEvalGone2, defEvalSwap)
+}
 
 // always-on observation: every intrinsic the runtime record points to (rt.global.*Prototype, constructors,
 // the global object, eval) is the one the copy's scripts see: fresh values of every built-in kind, errors
@@ -188,7 +203,6 @@ const qIntrinsics = `(function(g){ var gp = Object.getPrototypeOf, r = [];
   return r.join('') })(this)`
 
 const qCaller = `String(cg$())`
-const qEvalSwap = `(function(){ eval = e$; var r = (function(){ var evx$ = 'local'; return eval('evx$') })(); eval = parseInt; return r })()`
 
 // ---------------------------------------------------------------- the dumper script
 
@@ -368,7 +382,7 @@ func (p picked) qexpr() string {
 
 func runC17(env *Env) {
 	env.Import = "Otto.C17.Corr"
-	env.Rule = "scenario = setup history H (2-6 feature instances out of 19 kinds: closures sharing stashes, nested scopes, prototype chains, accessors, attributes and order, frozen/sealed, bound functions, arguments aliasing, modified built-ins, Date/RegExp/wrapper objects, arrays, with/catch/named-function scopes, cycles, sharing of one object of every class through several paths, global bindings, stateful getters, deletable/immutable scope bindings, host configuration (stack limit, random source, debugger handler, call.Otto); run as separate programs and cross-linked), Copy(), then 2-7 rounds each mutating one runtime (original, copy, copy of copy, later copy) or taking a further copy; after every round every runtime is compared with its replica on all observation programs and on a script dump of its user heap; non-trivial = distinct scenario with at least one mutation round and at least 3 feature kinds, or a heap-dump case"
+	env.Rule = "scenario = setup history H (2-6 feature instances out of 22 kinds: closures sharing stashes, nested scopes, prototype chains, accessors, attributes and order, frozen/sealed, bound functions, arguments aliasing, modified built-ins, Date/RegExp/wrapper objects, arrays, with/catch/named-function scopes, cycles, sharing of one object of every class through several paths, global bindings, stateful getters, deletable/immutable scope bindings, host configuration (stack limit, random source, debugger handler, call.Otto), closures of functions with a parameter named arguments, global eval deleted / rebound to a primitive / to another function; run as separate programs and cross-linked), Copy(), then 2-7 rounds each mutating one runtime (original, copy, copy of copy, later copy) or taking a further copy; after every round every runtime is compared with its replica on all observation programs and on a script dump of its user heap; non-trivial = distinct scenario with at least one mutation round and at least 3 feature kinds, or a heap-dump case"
 	pinned := []feature{defArgParam, defEvalGone1, defEvalGone2, defEvalSwap, defCaller}
 	const batch = 64
 	for base := 0; env.Count() < env.N; base += batch {
@@ -381,7 +395,7 @@ func runC17(env *Env) {
 			case i < len(pinned):
 				defect = &pinned[i]
 			case env.Rng.Intn(40) == 0:
-				d := pinned[env.Rng.Intn(len(pinned))]
+				d := defCaller
 				defect = &d
 			}
 			g := &gen{rng: rand.New(rand.NewSource(env.Rng.Int63())), tier: env.Tier}
@@ -515,9 +529,6 @@ func (g *gen) scenario(defect *feature, serial int) {
 		}
 		if defect != nil && defect.code == 104 {
 			add(201, inst(qCaller, 99))
-		}
-		if defect != nil && defect.code == 103 {
-			add(203, inst(qEvalSwap, 99))
 		}
 	}
 
